@@ -423,6 +423,44 @@ class May(object):
         return False
 
 
+def expanded_guards(prog, f, bid):
+    """Relations established on every path to block bid, with relations on single-definition boolean
+    locals (`have_x = (p->x[0] != 0)`) replaced by the comparison they were defined from - provided the
+    fields the definition reads cannot be written between the definition and the guarded block."""
+    from . import holds
+    from .model import rel as mkrel
+    fw = holds.FieldWrites(prog)
+    out = []
+    for e in f.dominating_edges(bid):
+        r = edge_rel(e)
+        if r is None:
+            continue
+        out.append(r)
+        l, op, rr = r
+        if is_var(l) and l.get('sc') == 'local' and const_of(rr) == 0 and op in ('==', '!='):
+            d = f.single_def(l['name'])
+            if not d:
+                continue
+            ds, val = d
+            if not (isinstance(val, dict) and (val.get('k') == 'bin' and val['op'] in ('==', '!=', '<', '>', '<=', '>=') or val.get('k') in ('bittest', 'un'))):
+                continue
+            if not (ds.bid == e.src or f.dominates(ds.bid, e.src)):
+                continue
+            fields = {x['field'] for x in walk(val) if x.get('k') == 'mem'}
+            # sites that can execute after the definition and before the edge
+            if ds.bid == e.src:
+                mid = f.block_sites(ds.bid)[ds.idx + 1:]
+            else:
+                after = f.reach([x.dst for x in f.out[ds.bid]])
+                mid = f.block_sites(ds.bid)[ds.idx + 1:] + [t for b in after if e.src in f.reach([b]) for t in f.block_sites(b)]
+            if any(fw.site_writes(t, fld) for t in mid for fld in fields):
+                continue
+            if not f.no_store_between(ds, type('S', (), {'bid': e.src, 'idx': len(f.block_sites(e.src))})(), vars_in(val)):
+                continue
+            out.append(mkrel(val, op == '!='))
+    return out
+
+
 # ---- misc ----------------------------------------------------------------------------------
 def callers_of(prog, name, unit=None):
     """(fn, site) for every direct call to function `name` anywhere in the program."""
